@@ -109,6 +109,21 @@ class ArrayConstraintBuilder(ConstraintOverrideVisitor):
         else:
             super().visit_constraint_if_else(c)
 
+    def visit_constraint_implies(self, c):
+        if self.do_copy_level > 0:
+            is_x, val = XExprEvaluator(self.index_set).eval(c.cond)
+        else:
+            is_x, val = (True, None)
+
+        if not is_x:
+            # The condition is a constant for this element (typically a guard
+            # on the foreach index): the body applies, or nothing does
+            if val:
+                for cs in c.constraint_l:
+                    cs.accept(self)
+        else:
+            super().visit_constraint_implies(c)
+
     def visit_composite_field(self, f):
         super().visit_composite_field(f)
         if self.phase == 1 and self.do_copy_level == 0:
